@@ -113,6 +113,9 @@ def gen(rng, tier):
         focus["auto"] = True
     if rng.random() < 0.06:
         focus["all_auto"] = True
+    if rng.random() < 0.2:
+        # several workers per task who come and go while it is worked on
+        focus.update(res_abs=True, worker_abs_dense=True, contention="low", solo=False)
     p = G.gen_profile(rng, focus)
     m = G.gen_feasible(rng, p)
     cfg = G.gen_cfg(rng, p)
